@@ -124,7 +124,7 @@ PROPS["C17"] = dict(
     generators=[dict(name="C17", quick=10, thorough=200, subseeds=4)],
     harness=["impl"],
     count_all=True,
-    watchdog_ms=60000,
+    watchdog_ms=120000,
     assumptions=["kernel-level loss before ReadFromUDP is outside the model; the udp.read hook gives the exact number of datagrams taken from the kernel",
                  "Go channels, sync.Pool and sync.WaitGroup behave as documented (they are the step rules of the transition system)"],
 )
@@ -133,7 +133,8 @@ PROPS["C18"] = dict(
     modules=["Proofs.C18"],
     theorems=["Goflow.C18.start_stop_results", "Goflow.C18.shutdown_order", "Goflow.C18.skeleton_matches",
               "Goflow.C18.drainInv_init", "Goflow.C18.drainInv_step", "Goflow.C18.drainInv_run",
-              "Goflow.C18.stop_drains", "Goflow.C18.stop_not_stuck"],
+              "Goflow.C18.stop_drains", "Goflow.C18.stop_not_stuck",
+              "Goflow.C18.quit_open_after_every_call", "Goflow.C18.callRun2_results"],
     generators=[dict(name="C18", quick=4, thorough=6, subseeds=1)],
     harness=["impl"],
     count_all=True,
